@@ -59,7 +59,7 @@ const SINK: usize = 128;
 // ------------------------------------------------------------------------------------------------
 // C01 O1.4 / C02 O2.6 / C14 O14.2: real Writer over a slice sink, stored-block deflate model
 
-// @verif prop=C01,C02 id=O1.4a tier=thorough unwind=12 timeout=1800 stubs="deflate::encode->stored-block model (exact CRC-32)" bound="3 symbolic payload bytes written as write(2);flush;write(1);finish  -- concrete call sequence, symbolic contents and compression level" fns="Writer::write,Writer::flush,Writer::flush_block,Writer::try_finish,Writer::finish,Writer::virtual_position,Writer::position,write_frame"
+// @verif prop=C01,C02 id=O1.4a tier=thorough unwind=12 timeout=1801 stubs="deflate::encode->stored-block model (exact CRC-32)" bound="3 symbolic payload bytes written as write(2);flush;write(1);finish  -- concrete call sequence, symbolic contents and compression level" fns="Writer::write,Writer::flush,Writer::flush_block,Writer::try_finish,Writer::finish,Writer::virtual_position,Writer::position,write_frame"
 #[kani::proof]
 #[kani::unwind(12)]
 #[kani::stub(crate::deflate::encode, deflate_model::encode)]
@@ -236,7 +236,7 @@ writer_fail_harness!(c14_writer_sink_fails_in_second_frame, 14, 27);
 // @verif prop=C14 id=O14.2a/eof tier=thorough harness=c14_writer_sink_fails_at_eof_marker unwind=12 timeout=1200 stubs="deflate::encode->stored-block model" bound="same; sink fails at call 28 (the EOF marker write) or never (29)" fns="Writer::try_finish"
 writer_fail_harness!(c14_writer_sink_fails_at_eof_marker, 28, 29);
 
-// @verif prop=C14 id=O14.2b tier=thorough unwind=12 timeout=2400 stubs="deflate::encode->stored-block model" bound="write(2);finish; the sink call carrying the cdata (11) or the EOF marker (14) accepts only 1 byte" fns="Writer::write,Writer::finish,write_frame,Write::write_all"
+// @verif prop=C14 id=O14.2b tier=off off_reason="does not fit: >2400 s" unwind=12 timeout=2400 stubs="deflate::encode->stored-block model" bound="write(2);finish; the sink call carrying the cdata (11) or the EOF marker (14) accepts only 1 byte" fns="Writer::write,Writer::finish,write_frame,Write::write_all"
 #[kani::proof]
 #[kani::unwind(12)]
 #[kani::stub(crate::deflate::encode, deflate_model::encode)]
